@@ -85,14 +85,22 @@ def append_step_reach(prev_raw: str, n_prev_lines: int, new: str) -> bool:
 
 # ---------------------------------------------------------------------------------------------
 # histories through the real entry points, exec stubbed
-_state = {"text": "", "reads": 0, "got": [], "calls": 0}
+_state = {"text": "", "reads": 0, "got": [], "calls": 0, "err": "", "keep_input": False, "saved_input": None}
 
 
 def _fake_exec(code, data):
     """Stands for an arbitrary student program: reads input() `reads` times, then writes `text`."""
     _state["calls"] += 1
+    reader = data["input"]
+    if _state["keep_input"]:
+        # `ask = input` at module level: a later execution reads through the reference an earlier one stored
+        if _state["saved_input"] is None:
+            _state["saved_input"] = reader
+        reader = _state["saved_input"]
     for _ in range(_state["reads"]):
-        _state["got"].append(data["input"]("p"))
+        _state["got"].append(reader("p"))
+    if _state["err"]:
+        sys.stderr.write(_state["err"])       # diagnostics on standard ERROR are not standard output
     sys.stdout.write(_state["text"])
     if "_" not in data:
         data["_"] = 0
@@ -179,6 +187,68 @@ def history3(t0: str, t1: str, t2: str) -> bool:
     return _history(ops, [t0, t1, t2])
 
 
+def stderr_history(t0: str, t1: str, e0: bool, e1: bool) -> bool:
+    """
+    Two operations (partition) whose programs also write to standard ERROR (warnings, tracebacks they print themselves):
+    the captured raw output, the per-execution records and the line view hold exactly what went to standard OUTPUT.
+
+    pre: len(t0) <= 1 and len(t1) <= 1
+    post: _
+    """
+    if tick():
+        return True
+    ops = _ops_from_part(2) or [0, 1]
+    import io
+    real_err = sys.stderr
+    sys.stderr = io.StringIO()
+    try:
+        sb = _fresh()
+        raw, lines, ok = "", [], True
+        for op, text, err in zip(ops, [t0, t1], [e0, e1]):
+            _state["err"] = "warning: E\n" if err else ""
+            before = len(sb._context)
+            _do(sb, op, text)
+            if op == 3:
+                raw, lines = "", []
+                continue
+            raw += text
+            lines += ref_lines(text)
+            ok = ok and len(sb._context) == before + 1 and sb._context[-1].output == text
+        return ok and sb.raw_output == raw and sb.output == lines
+    finally:
+        _state["err"] = ""
+        sys.stderr = real_err
+
+
+def input_reference(queue: List[str], r0: int, r1: int) -> bool:
+    """
+    A program keeps a reference to the input function it was given (`ask = input`) and a LATER execution (partition =
+    the two entry points) reads through it: values still come FIFO from the queue, and each execution's own record
+    (context.inputs) holds exactly the values read during THAT execution.
+
+    pre: len(queue) <= 3 and 0 <= r0 <= 2 and 0 <= r1 <= 2 and all(len(q) <= 1 for q in queue)
+    post: _
+    """
+    if tick():
+        return True
+    ops = _ops_from_part(2) or [0, 1]
+    sb = _fresh()
+    sb.set_input(list(queue))
+    _state["keep_input"], _state["saved_input"], _state["got"] = True, None, []
+    try:
+        _state["reads"] = r0
+        _do(sb, ops[0], "")
+        first = list(sb._context[-1].inputs)
+        _state["reads"] = r1
+        _do(sb, ops[1], "")
+        second = list(sb._context[-1].inputs)
+        got = list(_state["got"])
+    finally:
+        _state["keep_input"], _state["saved_input"], _state["reads"], _state["got"] = False, None, 0, []
+    want = [(queue[i] if i < len(queue) else "0") for i in range(r0 + r1)]
+    return got == want and first == want[:r0] and second == want[r0:]
+
+
 def history_reach(t0: str, t1: str) -> bool:
     """
     Reachability twin: REFUTED when a printing execution is followed by a silent one.
@@ -242,6 +312,46 @@ def input_fifo(queue: List[str], as_scalar: bool, keep: bool, extra: List[str], 
     left = expect[reads:]
     return (got == want and sb.inputs == left and sb._context[-1].inputs == want
             and buf.getvalue() == "p\n" * reads)
+
+
+def input_handback(queue: List[str], consumed: int, reads: int, via_function: bool) -> bool:
+    """
+    The queue handed back to set_input: after `consumed` reads, `set_input(<the sandbox's own queue>)` (what
+    set_input(get_input()) does) keeps exactly the remaining values; and after an input FUNCTION was installed
+    (set_input(callable), as run(real_io=True) does) a list can be queued again. Then `reads` reads: FIFO, then '0'.
+
+    pre: len(queue) <= 3 and 0 <= consumed <= 3 and 0 <= reads <= 4 and all(len(q) <= 1 for q in queue)
+    post: _
+    """
+    if tick():
+        return True
+    sb = Sandbox.__new__(Sandbox)
+    sb.inputs = []
+    sb._context = [_FakeCtx()]
+    import io
+    so = sys.stdout
+    sys.stdout = io.StringIO()
+    try:
+        if via_function:
+            sb.set_input(lambda prompt: "fn")
+            tracker = sb._track_inputs(sb._context[-1].inputs)
+            if tracker("p") != "fn":
+                return False
+            sb.set_input(list(queue))
+            remaining = list(queue)
+        else:
+            sb.set_input(list(queue))
+            tracker = sb._track_inputs(sb._context[-1].inputs)
+            for i in range(consumed):
+                tracker("p")
+            remaining = list(queue[consumed:])
+            sb.set_input(sb.inputs)              # hand the live queue back
+        tracker = sb._track_inputs(sb._context[-1].inputs)
+        got = [tracker("p") for i in range(reads)]
+    finally:
+        sys.stdout = so
+    want = [(remaining[i] if i < len(remaining) else "0") for i in range(reads)]
+    return got == want and list(sb.inputs) == remaining[reads:]
 
 
 def input_clear(queue: List[str], reads: int) -> bool:
